@@ -701,7 +701,9 @@ func (d *dealer) syncCall(caller *wamp.Session, msg *wamp.Call) {
 		abortMsg.Details[wamp.OptMessage] = "Peer is trying to use Progressive Call Invocations while it was not " +
 			"announced during HELLO handshake"
 		d.trySend(caller, &abortMsg)
-		caller.Close()
+		// The peer is closed by the session's message handler, which may be
+		// using it right now; tell that handler to end the session.
+		caller.EndRecv(abortedGoodbye)
 		return
 	}
 
@@ -776,7 +778,9 @@ func (d *dealer) syncCall(caller *wamp.Session, msg *wamp.Call) {
 				abortMsg.Details[wamp.OptMessage] = "Peer is trying to use Payload PassThru Mode while it was not " +
 					"announced during HELLO handshake"
 				d.trySend(caller, &abortMsg)
-				caller.Close()
+				// The peer is closed by the session's message handler, which may be
+				// using it right now; tell that handler to end the session.
+				caller.EndRecv(abortedGoodbye)
 				return
 			}
 
@@ -1151,7 +1155,9 @@ func (d *dealer) syncYield(callee *wamp.Session, msg *wamp.Yield, progress, canR
 			abortMsg.Details = wamp.Dict{}
 			abortMsg.Details[wamp.OptMessage] = ErrPPTNotSupportedByPeer.Error()
 			d.trySend(callee, &abortMsg)
-			callee.Close()
+			// The peer is closed by the session's message handler, which may be
+			// using it right now; tell that handler to end the session.
+			callee.EndRecv(abortedGoodbye)
 			return false
 		}
 
